@@ -123,6 +123,11 @@ class GotranPythonCodePrinter(PythonCodePrinter):
         lhs, rhs = expr.args
         return f"({self._print(lhs)} == {self._print(rhs)})"
 
+    def _print_Mod(self, expr):
+        # Parenthesise: `%` has the precedence of `*`, and sympy may pull a factor out
+        # of Mod, so `a*Mod(b, c)` would otherwise be printed as `a*b % c`
+        return f"({super()._print_Mod(expr)})"
+
     def _print_sign(self, e):
         return "(0.0 if ({e} == 0) else {f}(1, {e}))".format(
             f=self._module_format("numpy.copysign"), e=self._print(e.args[0])
